@@ -122,6 +122,13 @@ def generate(rng, tier):
         p["hydro_vars"] = p["hydro_vars"][:3]
         # the finest search cubes are those of level levelmin - 1 (the father cells of the coarsest leaves)
         nb_, side = 3, 8
+        fine_ranks = rng.random() < 0.4
+        if fine_ranks:
+            # ranks as fine as the coarsest leaves themselves: an oct then lives in the file of the rank that owns the key
+            # of its father's centre, which is in general not the rank of the cube the leaf itself lies in
+            # (levelmax 5: the loader derives its bounding box from the finest-level centres inside the intervals)
+            nb_, side, lmax = 4, 16, 5
+            p.update(levelmax=5)
         inv = {hilbert3d(x, y, z, nb_): (x, y, z) for x in range(side) for y in range(side) for z in range(side)}
         k0 = rng.randrange(0, side ** 3 - ncpu)
         step = 8 ** (lmax + 1 - nb_)
@@ -135,7 +142,11 @@ def generate(rng, tier):
             iv = []
             small = rng.random() < 0.4  # one level-4 cell inside the cube, or most of the cube
             for c, x in zip("xyz", cube):
-                if small:
+                if fine_ranks:
+                    # starts in the neighbouring leaf (where there is one) and contains this leaf's centre; narrower than a leaf
+                    lo = max(0.0, (x - rng.uniform(0.3, 0.45)) / side) if rng.random() < 0.7 else (x + rng.uniform(0.05, 0.2)) / side
+                    hi = (x + 0.5 + rng.uniform(0.05, 0.3)) / side
+                elif small:
                     h = rng.choice([0.0, 0.5])
                     lo, hi = (x + h + rng.uniform(0.02, 0.1)) / side, (x + h + rng.uniform(0.4, 0.48)) / side  # contains the finest-level centres
                 else:
